@@ -76,6 +76,13 @@ def run(ctx):
                 d = gen.any_dataset(rng, gen.FAMILIES[n % len(gen.FAMILIES)])
             scaled = rng.random() < 0.4
             ds = rescale(d) if scaled else d.ds
+            # where on the globe the model sits: as generated (around 0E 0N), on a 0..360 longitude axis east of 180E,
+            # astride 180E, west of 180W, far south
+            where = ['as generated', 'east of 180E', 'astride 180E', 'west of 180W', 'far south', 'as generated'][n % 6]
+            if where != 'as generated':
+                ds = gen.shift_coordinates(ds, dlon={'east of 180E': 200.0, 'astride 180E': 178.0, 'west of 180W': -200.0}.get(where, 0.0),
+                                           dlat=-70.0 if where == 'far south' else 0.0, max_lat=1e9)
+            ctx.count(f'placed:{where}')
             with warnings.catch_warnings():
                 warnings.simplefilter('ignore')
                 polys = list(ds.ems.polygons)
@@ -91,7 +98,8 @@ def run(ctx):
             ctx.count(f'scaled:{scaled}')
             ctx.count(f'holes:{"yes" if holes else "no"}')
             for fmt in ['geojson', 'shapefile', 'wkt', 'wkb']:
-                case = {'dataset': label, 'format': fmt, 'scaled_by_third': scaled, 'cells': len(polys), 'without_geometry': holes}
+                case = {'dataset': label, 'format': fmt, 'scaled_by_third': scaled, 'cells': len(polys), 'without_geometry': holes,
+                        'placed': where}
                 ctx.case((label, scaled, fmt), holes > 0, sample=case if holes and len(ctx.samples) < 3 else None)
                 path = os.path.join(tmp, f'e{n}.{ {"geojson": "geojson", "shapefile": "shp", "wkt": "wkt", "wkb": "wkb"}[fmt] }')
                 with warnings.catch_warnings():
